@@ -2,6 +2,7 @@ import ZarrsModel.Model.Meta
 import ZarrsModel.Model.Hier
 import ZarrsModel.Model.Float
 import ZarrsModel.Driver.Proto
+import ZarrsModel.Driver.C13V2
 /- driver handlers for C13 (unverified glue around `Zarrs.Meta`, `Zarrs.Hier`, `Zarrs.Json`) -/
 namespace Zarrs.DriverC13
 open Zarrs Zarrs.Json Zarrs.Meta Zarrs.Hier Zarrs.Proto
@@ -95,15 +96,13 @@ def handleDoc (l : Line) : Option (List String) := do
       match GroupDoc.ofText text with
       | some d => pure [serLine d.toJ]
       | none => pure ["rej"]
-  | "a2doc" | "g2doc" =>
-    -- V2 documents are not modelled: only the fixed point of re-serialising is judged
-    let toks := outTokens l.outcome
-    match toks.find? (·.1 == "ser"), toks.find? (·.1 == "ser2") with
-    | some (_, a), some (_, b) => pure [if a == b then l.outcome else "ser=X ser2=X (re-serialising is not a fixed point)"]
-    | _, _ => pure ["rej"]
+  | "a2doc" | "g2doc" | "v2to3" =>
+    -- V2 documents and the V2 -> V3 conversion: predicted by `Zarrs.MetaV2` (Driver/C13V2.lean)
+    DriverC13V2.handleDoc verb text dup
   | "a2open" =>
     -- V2 arrays are not modelled: an array that opens must re-open after its metadata is stored again, with the
     -- same stored document, and its operations must not panic
+    if DriverC13V2.mustRejectOpen text && !dup then pure ["rej-open"] else
     if l.outcome == "rej-open" then
       pure [if (l.get "clean") == some "1" then "ok (a V2 document within the supported subset must open)" else "rej-open"] else
     let toks := outTokens l.outcome
